@@ -65,6 +65,18 @@ theorem exec_runStmt_noAfter (n : Nat) (env : Env) (stmt : Stmt) (s : St) (r : D
   rw [drainAfter]
   simp [exec_bind, St.withTable, St.clearQ]
 
+/-- `runStmt` around a statement that queues no AFTER trigger -/
+theorem exec_runStmt_noAfter' (n : Nat) (env : Env) (stmt : Stmt) (s s' : St) (r : DmlResult)
+    (h : (execStmt (n + 1) env stmt).exec s.clearQ = (.ok r, s')) (hq : s'.afterQ = []) :
+    (runStmt (n + 2) env stmt).exec s = (.ok r, { s' with afterQ := s.afterQ }) := by
+  rw [runStmt]
+  simp only [exec_bind, exec_get, exec_modify, exec_pure]
+  have h' : (execStmt (n + 1) env stmt).exec { s with afterQ := [] } = (.ok r, s') := h
+  rw [h']
+  simp only
+  rw [drainAfter]
+  simp [exec_bind, hq]
+
 theorem TxState.clearQ {s : St} (h : TxState s) : TxState s.clearQ :=
   ⟨h.solo, h.xid, h.cid, h.snap, h.noEpq, h.names⟩
 
